@@ -84,30 +84,42 @@ def check(prog, run):
         if not ok:
             run.report(r, "%s:%s:O-null" % (f.module.name, f.qualname), f.where(), "%s does not reject null for a NonNull type" % label)
     # argument assembly: the value taken from `variables` must be null-checked against a NonNull argument type
-    stores = [n for n in own_nodes(cav.node) if isinstance(n, ast.Assign) and isinstance(n.value, ast.Subscript) and ast.unparse(n.value.value) == "variables"]
+    # path form: on the executions of the per-argument body with the variable provided, its value None and the argument type
+    # NonNull, the statement that stores the variable's value is never reached
+    def _from_variables(e):
+        return ((isinstance(e, ast.Subscript) and ast.unparse(e.value) == "variables")
+                or (isinstance(e, ast.Call) and isinstance(e.func, ast.Attribute) and e.func.attr == "get" and ast.unparse(e.func.value) == "variables"))
+    var_locals = {n.targets[0].id for n in own_nodes(cav.node) if isinstance(n, ast.Assign) and len(n.targets) == 1
+                  and isinstance(n.targets[0], ast.Name) and _from_variables(n.value)}
+    stores = [n for n in own_nodes(cav.node) if isinstance(n, ast.Assign) and isinstance(n.targets[0], ast.Subscript)
+              and (_from_variables(n.value) or (isinstance(n.value, ast.Name) and n.value.id in var_locals))]
     shapes.require(stores, "C07.O1: coerce_argument_values no longer stores variables[...] directly; rule needs updating")
+
+    def decide_null_variable(t):
+        tt = t.replace(" ", "")
+        if re.match(r"^isinstance\([\w.]+,(_ast\.)?Variable\)$", tt):
+            return True
+        if re.match(r"^isinstance\([\w.]+,NonNullType\)$", tt):
+            return True
+        if re.match(r"^\(?[\w.]+invariables\)?$", tt):
+            return True
+        m = re.match(r"^(.+)isNone$", tt)
+        if m and (m.group(1).startswith("variables[") or m.group(1).startswith("variables.get(") or m.group(1) in var_locals):
+            return True
+        return None
     for st in stores:
-        guarded = False
-        cur = st
-        while getattr(cur, "_parent", None) is not None and not isinstance(cur, (ast.FunctionDef,)):
-            par = cur._parent
-            if isinstance(par, ast.If):
-                # an earlier sibling/ancestor test that raises for (None and NonNull)
-                chain = par
-                tests = [par]
-                for t in tests:
-                    txt = ast.unparse(t.test)
-                    if "NonNullType" in txt and "None" in txt and shapes.raises_unconditionally(t.body) and cur not in t.body:
-                        guarded = True
-            # preceding statements in the same block
-            body = getattr(par, "body", None)
-            for blk in (getattr(par, "body", []), getattr(par, "orelse", [])):
-                if isinstance(blk, list) and cur in blk:
-                    for prev in blk[:blk.index(cur)]:
-                        if isinstance(prev, ast.If) and "NonNullType" in ast.unparse(prev.test) and "None" in ast.unparse(prev.test) and shapes.raises_unconditionally(prev.body):
-                            guarded = True
-            cur = par
-        r.instance("O-null argument assembly `%s` guarded: %s" % (norm_stmt(st), guarded))
+        scope = st
+        while getattr(scope, "_parent", None) is not None and not isinstance(scope, (ast.For, ast.FunctionDef)):
+            scope = scope._parent
+        scope_fn = boolx.body_function(scope.body) if isinstance(scope, ast.For) else scope
+        try:
+            _ev, exits = boolx.walk_under(scope_fn, decide_null_variable)
+        except ValueError as e:
+            raise AnalysisError("C07.O1: coerce_argument_values: %s" % e)
+        shapes.require(exits, "C07.O1: coerce_argument_values: no execution found for the null-variable case")
+        reached = [1 for _k, _s, env in exits if any(x is st for x in env.get(boolx.STMTS, ()))]
+        guarded = not reached
+        r.instance("O-null argument assembly `%s` unreachable with (value None, type NonNull): %s over %d executions" % (norm_stmt(st), guarded, len(exits)))
         if not guarded:
             run.report(r, "%s:coerce_argument_values:O-null(variable)" % CV, cav.where(st),
                        "`%s` hands a variable's value to the resolver without checking null against a NonNull argument type: "
@@ -264,48 +276,57 @@ def check(prog, run):
                            "unknown-field rejection is conditional (e.g. skipped when defaults were filled in)")
 
     # ---- I1 Int range
-    r = run.rule("I1", "coerce_int accepts exactly the integers in [-2^31, 2^31 - 1] (interval computed from the folded bounds "
-                       "and comparison operators of its range guard)", 1)
+    r = run.rule("I1", "coerce_int accepts exactly the integers in [-2^31, 2^31 - 1] (every test that compares the converted "
+                       "number with MIN_INT / MAX_INT is folded for 2^31-1, 2^31, -2^31, -2^31-1 and neighbours; the executions "
+                       "that reach it must return for the values inside and raise for those outside)", 1)
     ci = prog.get_func(SC, "coerce_int")
     run.looked_at(ci)
     m = prog.module(SC)
-    guard = None
-    for n in own_nodes(ci.node):
-        if isinstance(n, ast.If) and shapes.raises_unconditionally(n.body) and _contains(n.test, lambda x: isinstance(x, ast.Name) and x.id in ("MIN_INT", "MAX_INT")):
-            guard = n
-    shapes.require(guard is not None, "C07.I1: range guard not found in coerce_int")
-    t = guard.test
-    neg = False
-    if isinstance(t, ast.UnaryOp) and isinstance(t.op, ast.Not):
-        neg, t = True, t.operand
-    lo = hi = None
-    if isinstance(t, ast.Compare) and len(t.ops) == 2 and neg:
-        a, b, c = t.left, t.comparators[0], t.comparators[1]
-        va, vc = prog.fold(m, a), prog.fold(m, c)
-        lo = va + (1 if isinstance(t.ops[0], ast.Lt) else 0) if isinstance(t.ops[0], (ast.Lt, ast.LtE)) else None
-        hi = vc - (1 if isinstance(t.ops[1], ast.Lt) else 0) if isinstance(t.ops[1], (ast.Lt, ast.LtE)) else None
-    elif isinstance(t, ast.BoolOp) and isinstance(t.op, ast.Or) and not neg:
-        for v in t.values:
-            if isinstance(v, ast.Compare) and len(v.ops) == 1:
-                l, rgt, op = v.left, v.comparators[0], v.ops[0]
-                if isinstance(l, ast.Name) and l.id == "numeric":
-                    bound = prog.fold(m, rgt)
-                    if isinstance(op, ast.Lt):
-                        lo = bound
-                    elif isinstance(op, ast.LtE):
-                        lo = bound + 1
-                    elif isinstance(op, ast.Gt):
-                        hi = bound
-                    elif isinstance(op, ast.GtE):
-                        hi = bound - 1
-    if lo is None or hi is None:
-        raise AnalysisError("C07.I1: unrecognised range guard `%s`" % ast.unparse(guard.test))
-    r.instance("accepted Int interval [%d, %d]" % (lo, hi))
-    if (lo, hi) != (-2 ** 31, 2 ** 31 - 1):
-        run.report(r, "%s:coerce_int:range" % SC, ci.where(guard),
-                   "the guard `%s` accepts [%d, %d] instead of [-2147483648, 2147483647]: %s" % (
-                       ast.unparse(guard.test), lo, hi,
-                       "the extreme 32-bit values are rejected" if lo > -2 ** 31 or hi < 2 ** 31 - 1 else "values outside the 32-bit range are accepted"))
+    # the tests that compare the converted number with the bounds, whatever their polarity and position
+    bound_names = ("MIN_INT", "MAX_INT")
+    tests = [n for n in own_nodes(ci.node) if isinstance(n, ast.Compare) and _contains(n, lambda x: isinstance(x, ast.Name) and x.id in bound_names)]
+    shapes.require(bool(tests), "C07.I1: range guard not found in coerce_int")
+    consts = {k: prog.fold(m, ast.Name(id=k, ctx=ast.Load())) for k in bound_names}
+    numvars = {x.id for t in tests for x in ast.walk(t) if isinstance(x, ast.Name) and x.id not in bound_names}
+    shapes.require(len(numvars) == 1, "C07.I1: the range guard of coerce_int compares more than one variable with the bounds")
+    numvar = next(iter(numvars))
+
+    def outcome(v):
+        """kinds of exit reached by executions that evaluate the bounds test with the converted number being v"""
+        hit = []
+
+        def decide(t):
+            try:
+                e = ast.parse(t, mode="eval")
+            except SyntaxError:
+                return None
+            names = {x.id for x in ast.walk(e) if isinstance(x, ast.Name)}
+            if names and names <= {numvar, "MIN_INT", "MAX_INT"} and names & set(bound_names) and not _contains(e, lambda x: isinstance(x, ast.Call)):
+                hit.append(t)
+                return bool(eval(compile(e, "<bounds>", "eval"), {"__builtins__": {}}, dict(consts, **{numvar: v})))   # integer comparison
+            return None
+        try:
+            _ev, exits = boolx.walk_under(ci.node, decide)
+        except ValueError as e:
+            raise AnalysisError("C07.I1: %s" % e)
+        kinds = set()
+        for kind, st, env in exits:
+            decided = {t for t, _v in env.get(boolx.TESTS, ())}
+            if any(t in decided for t in hit):
+                kinds.add(kind)
+        return kinds
+    lo_, hi_ = -2 ** 31, 2 ** 31 - 1
+    table = {}
+    for v in (lo_ - 1, lo_, lo_ + 1, 0, hi_ - 1, hi_, hi_ + 1):
+        table[v] = outcome(v)
+    r.instance("bounds test folded: %s" % {k: sorted(v) for k, v in table.items()})
+    for v, kinds in table.items():
+        want = {"return"} if lo_ <= v <= hi_ else {"raise"}
+        if kinds != want:
+            run.report(r, "%s:coerce_int:range" % SC, ci.where(tests[0]),
+                       "for the converted number %d coerce_int %s (expected: %s): the accepted interval is not [-2147483648, 2147483647]"
+                       % (v, "/".join(sorted(kinds)) + "s" if kinds else "never reaches the bounds test", "accepted" if want == {"return"} else "rejected"))
+            break
 
     # ---- I2 literal kinds
     r = run.rule("I2", "literal kinds accepted by the specified scalars: Int<-IntValue, Float<-FloatValue|IntValue, "
